@@ -7,6 +7,7 @@ from vlib.oracles import nfa as O
 from vlib.registry import Cond, product_pins
 
 from pyformlang.finite_automaton import EpsilonNFA
+from vlib.conds.c01 import CLASSES, CLASS_NAMES, kind_ok, B8
 
 sparse_canonical = enc.sparse_canonical
 T9 = Tuple[int, int, int, int, int, int, int, int, int]
@@ -238,6 +239,76 @@ def c03_shapes(shape: int, second: int) -> bool:
     return chx.judge("C03", "c03_shapes", raw, (sh, se), obs, _shapes_oracle, realize_obs=False)
 
 
+# ----------------------------------------------------------------------------------------
+# an operand that has already been used in operations, is then edited, and is used again
+
+EDITS = ["add_start_state", "remove_start_state", "add_final_state", "remove_final_state", "add_transition",
+         "remove_transition", "add_epsilon_transition"]
+REUSE_OPS = ["union", "concatenate", "kleene_star", "get_intersection", "get_difference", "get_complement", "reverse"]
+
+
+def _reuse_oracle(args, obs):
+    kind, edges, starts, finals, edit, x, y = args
+    A, B = obs["operand"], obs["second"]
+    ra = O.extract(A)            # the operand as it is after the edit, read through its public observation points
+    rb = O.extract(B)
+    tags = ["operand_reused_after_" + EDITS[edit], "class_" + CLASS_NAMES[kind]]
+    wants = {"union": lambda: O.union(ra, rb), "concatenate": lambda: O.concat(ra, rb),
+             "kleene_star": lambda: O.star(ra),
+             "get_intersection": lambda: O.combine([ra, rb], lambda u, v: u and v),
+             "get_difference": lambda: O.combine([ra, rb], lambda u, v: u and not v),
+             "get_complement": lambda: O.complement(ra), "reverse": lambda: O.reverse(ra)}
+    fails = []
+    for op, res in obs["results"]:
+        compare(op, res, wants[op](), tags, fails)
+    before = enc.ref_enfa(2, edges, starts, finals)
+    changed = not O.equivalent(before, ra)[0]
+    return bool(edges) and changed, fails, {"before": before.describe(), "after": ra.describe(),
+                                            "edit": [EDITS[edit], x, y], "cls": CLASS_NAMES[kind],
+                                            "edit_result": obs["edit_result"]}
+
+
+def c03_reuse(kind: int, bits: B8, starts: int, finals: int, edit: int, x: int, y: int) -> bool:
+    """
+    pre: pinned(kind=kind, starts=starts, finals=finals, edit=edit, b0=bits[0], b1=bits[1])
+    pre: ((0 <= kind) & (kind < 3)) & ((0 <= starts) & (starts < 4)) & ((0 <= finals) & (finals < 4)) & ((0 <= edit) & (edit < 7)) & ((0 <= x) & (x < 2)) & ((0 <= y) & (y < 2))
+    post: _
+    """
+    raw = (kind, bits, starts, finals, edit, x, y)
+    edges = enc.decode_enfa_dense(bits, 2, 1)
+    st = enc.mask_members(starts, 2)
+    fi = enc.mask_members(finals, 2)
+    kd = enc.pick(kind, 3)
+    ed = enc.pick(edit, 7)
+    xx, yy = enc.pick(x, 2), enc.pick(y, 2)
+    if not kind_ok(kd, edges, st) or (kd == 2 and len(st) > 1):
+        return chx.assumed_away("c03_reuse")
+    chx.enter("c03_reuse", raw)
+    A = enc.build_enfa(CLASSES[kd], 2, edges, st, fi)
+    B = enc.build_enfa(EpsilonNFA, 2, [(0, 1, 1)], [0], [1])
+
+    def run():
+        out = []
+        for op in REUSE_OPS:
+            if op in ("kleene_star", "get_complement", "reverse"):
+                out.append((op, chx.guarded(getattr(A, op))))
+            else:
+                out.append((op, chx.guarded(getattr(A, op), B)))
+        return out
+    run()                                    # first use: whatever the library remembers is now in place
+    name = EDITS[ed]
+    if name in ("add_transition", "remove_transition"):
+        er = chx.guarded(getattr(A, name), xx, "a", yy)
+    elif name == "add_epsilon_transition":
+        er = chx.guarded(A.add_transition, xx, "epsilon", yy)
+    else:
+        er = chx.guarded(getattr(A, name), xx)
+    obs = {"operand": A, "second": B, "results": run(),
+           "edit_result": "ok" if er[0] == "ok" else "%s" % (er[1],)}
+    return chx.judge("C03", "c03_reuse", raw, (kd, edges, st, fi, ed, xx, yy), obs, _reuse_oracle,
+                     realize_obs=False)
+
+
 def _sh_unary(tier):
     if tier == "quick":
         return product_pins(k=[1, 2], m=[0, 1, 2], starts=[0, 1, 3], finals=[1, 2, 3])
@@ -260,6 +331,14 @@ def _sh_self(tier):
     if tier == "quick":
         return product_pins(ma=[1, 2], sa=[1, 3], fa=[1, 2])
     return product_pins(ma=[0, 1, 2, 3], sa=[0, 1, 2, 3], fa=[1, 2, 3])
+
+
+def _sh_reuse(tier):
+    if tier == "quick":
+        return product_pins(kind=[0], starts=[1], finals=[2], edit=list(range(7)), b0=[False], b1=[False, True]) + \
+            product_pins(kind=[1, 2], starts=[1], finals=[2, 3], edit=list(range(6)), b0=[False], b1=[False])
+    return product_pins(kind=[0], starts=[1, 3], finals=[1, 2, 3], edit=list(range(7)), b0=[False], b1=[False, True]) + \
+        product_pins(kind=[1, 2], starts=[1, 3], finals=[1, 2, 3], edit=list(range(6)), b0=[False], b1=[False])
 
 
 FUNCS = ["EpsilonNFA.get_complement", "EpsilonNFA.__neg__", "EpsilonNFA.reverse", "EpsilonNFA.__invert__",
@@ -291,4 +370,14 @@ CONDS = [
          {"quick": "A op A (same object) for A with 1-2 edges over {a}: intersection, difference, union, concatenate",
           "thorough": "A with <=3 edges, all start masks"},
          FUNCS, RULE),
+    Cond("C03", c03_reuse, _sh_reuse,
+         {"quick": "operand A (eps-NFA / NFA / DFA, 2 states over {a}, start {0}, final {1} or {0,1}) is used in all seven "
+                   "operations, edited once through the public API (add/remove start or final state, add/remove a "
+                   "transition, add an eps transition; symbolic arguments) and used again: the second results are "
+                   "judged against the operand as it then is (read through states/start_states/final_states/iteration)",
+          "thorough": "same with starts {0}/{0,1} and every non-empty final mask"},
+         FUNCS + ["FiniteAutomaton.add_start_state", "DeterministicFiniteAutomaton.add_start_state",
+                  "FiniteAutomaton.remove_start_state", "FiniteAutomaton.add_final_state",
+                  "FiniteAutomaton.add_transition", "FiniteAutomaton.remove_transition"],
+         "operand has an edge and the edit changes its language"),
 ]
